@@ -122,6 +122,21 @@ def main(argv=None):
             marker.write_text("ok")
     t0 = time.time()
 
+    # scratch directory for the runner's own check calls (replay, known-finding witnesses)
+    import atexit
+    main_scratch = ROOT / ".scratch" / f"main-{os.getpid()}"
+    main_scratch.mkdir(parents=True, exist_ok=True)
+    os.environ["VERIF_SCRATCH"] = str(main_scratch)
+
+    def _cleanup():
+        shutil.rmtree(main_scratch, ignore_errors=True)
+        try:
+            (ROOT / ".scratch").rmdir()
+        except OSError:
+            pass
+
+    atexit.register(_cleanup)
+
     # ---------------- replay mode
     if args.replay:
         data = json.loads(Path(args.replay).read_text())
